@@ -121,6 +121,11 @@ func (q *MultiOpQueryer) Subscribe(req *requests.Request, closeCh <-chan struct{
 				requests.SubError:
 				return
 			case requests.SubData:
+				// nil on the channel means the end of the stream: a data message
+				// without payload carries nothing and is not the end
+				if serverResp.Payload == nil {
+					continue
+				}
 				resCh <- serverResp.Payload
 			}
 		}
